@@ -40,6 +40,10 @@ JoinClean(cur, rest) == IF rest = <<>> THEN cur
                         ELSE JoinClean(Append(cur, Str(rest[1])), Tail(rest))
 Ambiguous(raw) == raw # <<>> /\ PL!AmbiguousExpand(EnvF, raw)
 
+\* The relative text of a link is settled by `symlink` (C10) and kept consistent by move and copy; a copy with follow onto a
+\* chain of links (A24, not settled) can leave a link whose recorded text is not the navigation to its recorded target.  Queries
+\* about the text of such a link are not judged (a state read back from the implementation carries the text in `rt`).
+TextSettled(fs, p) == "rt" \notin DOMAIN fs[p] \/ StrSeq(PL!Segs(fs[p].rt)) = RelC(fs[p].t, Parent(p))
 HasFlag(c, x) == \E i \in 1..Len(c.f) : c.f[i] = x
 TwoPath == {"move_p", "copy", "copy_b", "copy_seq", "symlink"}
 BoolQ == {"exists", "is_dir", "is_file", "is_symlink", "is_symlink_dir", "is_symlink_file", "is_exec", "is_readonly"}
@@ -64,7 +68,7 @@ QueryRes(st, c, p) == LET fs == st.fs  op == c.op IN
      [] op = "owner" -> IF ~Exists(fs, p) THEN RErr("Path::DoesNotExist") ELSE IF IsLink(fs, p) THEN RAny ELSE ROk(<<fs[p].uid, fs[p].gid>>)
      [] op = "readlink_abs" -> IF IsLink(fs, p) THEN ROk(PV(fs[p].t)) ELSE RErrAny
      [] op = "readlink" -> IF ~IsLink(fs, p) THEN RErrAny
-                           ELSE IF fs[p].t = Parent(p) THEN RAny        \* D11: relative(p, p) is documented to return p itself
+                           ELSE IF fs[p].t = Parent(p) \/ ~TextSettled(fs, p) THEN RAny        \* D11: relative(p, p) is documented to return p itself
                            ELSE ROk([p |-> RelC(fs[p].t, Parent(p)), c |-> "t", abs |-> "f"])
      [] op = "abs" -> ROk(PV(p))
      [] op = "entry" -> EntryRes(st, p)
@@ -175,7 +179,7 @@ EntryOK(st, p, v) == LET fs == st.fs  n == fs[p]  e == v.e IN
                                  /\ e.ldir = TF(n.k = "link" /\ n.tk = "dir") /\ e.lfile = TF(n.k = "link" /\ n.tk = "file"))
    /\ v.nf = e /\ v.f1nf = v.f1                                   \* follow(false) is a no-op, also after follow(true)
    /\ IF n.k = "link"
-      THEN /\ e.alt = PV(n.t) /\ (n.t = Parent(p) \/ e.rel = [p |-> RelC(n.t, Parent(p)), c |-> "t", abs |-> "f"])
+      THEN /\ e.alt = PV(n.t) /\ (n.t = Parent(p) \/ ~TextSettled(fs, p) \/ e.rel = [p |-> RelC(n.t, Parent(p)), c |-> "t", abs |-> "f"])
            /\ v.f1.path = PV(n.t) /\ v.f1.alt = PV(p) /\ v.f1.following = "t"       \* swapped exactly once
            /\ v.f2 = v.f1
       ELSE v.f1 = e /\ v.f2 = e
